@@ -758,3 +758,19 @@ fire("c05_gather_dedup_by_id", "C05", [(NODE, "        for n_info in self.dfs(pr
 fire("c16_sorted_keys_cached_per_class", "C16", [(SER, "            for k, v in sorted(d.items(), key=itemgetter(0)):\n                out[k] = v", "            keys = _SORTED.setdefault(self.__class__, tuple(sorted(d)))\n            for k in keys:\n                if k in d:\n                    out[k] = d[k]"), (SER, 'TYPE_KEY = "__type"\n', 'TYPE_KEY = "__type"\n_SORTED: dict = {}\n')], "R-SORTED")
 fire("c15_hull_by_ordering_starts", "C15", [(ORIGIN, "        return CodeRange(start=min(self.start, other.start), end=max(self.end, other.end))", "        first, second = (self, other) if self.start <= other.start else (other, self)\n\n        return CodeRange(start=first.start, end=second.end)")], "R-INTERVAL-LAWS")
 silent("c16_sorted_keys_equivalent", "C16", [(SER, "            for k, v in sorted(d.items(), key=itemgetter(0)):\n                out[k] = v", "            for k in sorted(d):\n                out[k] = d[k]")])
+
+# ---------------------------------------------------------------- loop summaries (loops.py): chain generators and first-match searches
+_ANC_OLD = "        parent = self.get_parent(node)\n        while parent is not None:\n            yield parent\n            parent = self.get_parent(parent)\n"
+fire("c06_ancestors_stops_early", "C06", [(TREE, _ANC_OLD, "        parent = self.get_parent(node)\n        while parent is not None and self.get_parent(parent) is not None:\n            yield parent\n            parent = self.get_parent(parent)\n")], "R-TREE-CHAIN")
+fire("c06_ancestors_no_advance", "C06", [(TREE, _ANC_OLD, "        parent = self.get_parent(node)\n        while parent is not None:\n            yield parent\n            parent = self.get_parent(node)\n")], "R-TREE-CHAIN")
+fire("c06_ancestors_every_other", "C06", [(TREE, _ANC_OLD, "        parent = self.get_parent(node)\n        while parent is not None:\n            parent = self.get_parent(parent)\n            if parent is not None:\n                yield parent\n")], "R-TREE-CHAIN")
+silent("c06_ancestors_cursor_form", "C06", [(TREE, _ANC_OLD, "        current = node\n        while True:\n            parent = self.get_parent(current)\n            if parent is None:\n                return\n            yield parent\n            current = parent\n")])
+silent("c06_ancestors_walrus_form", "C06", [(TREE, _ANC_OLD, "        cursor = node\n        while (cursor := self.get_parent(cursor)) is not None:\n            yield cursor\n")])
+silent("c06_ancestors_recursive_form", "C06", [(TREE, _ANC_OLD, "        p = self.get_parent(node)\n        if p is None:\n            return\n        yield p\n        yield from self.get_ancestors(p)\n")])
+_ISANC_OLD = "        for a in self.get_ancestors(node):\n            if a is ancestor:\n                return True\n\n        return False\n"
+silent("c06_is_ancestor_any_form", "C06", [(TREE, _ISANC_OLD, "        return any(candidate is ancestor for candidate in self.get_ancestors(node))\n")])
+fire("c06_is_ancestor_any_eq", "C06", [(TREE, _ISANC_OLD, "        return any(candidate == ancestor for candidate in self.get_ancestors(node))\n")])
+fire("c06_is_ancestor_wrong_start", "C06", [(TREE, _ISANC_OLD, "        for a in self.get_ancestors(ancestor):\n            if a is node:\n                return True\n\n        return False\n")], "R-TREE-CHAIN")
+fire("c06_is_ancestor_default_true", "C06", [(TREE, _ISANC_OLD, "        for a in self.get_ancestors(node):\n            if a is ancestor:\n                return True\n\n        return True\n")], "R-TREE-CHAIN")
+fire("c18_ancestors_include_self", "C18", [(LNODE, "        parent = self.parent\n        while parent is not None:\n            yield parent\n            parent = parent.parent\n", "        parent = self\n        while parent is not None:\n            yield parent\n            parent = parent.parent\n")], "R-LEG-IDENT")
+silent("c18_ancestors_cursor_form", "C18", [(LNODE, "        parent = self.parent\n        while parent is not None:\n            yield parent\n            parent = parent.parent\n", "        cur = self\n        while cur.parent is not None:\n            cur = cur.parent\n            yield cur\n")])
